@@ -123,6 +123,7 @@ class PathAI:
         self.dropped = 0
         self.assume = assume or []      # [(term, truth)] preconditions (e.g. config facts)
         self._dom_cache = {}
+        self._loopw = None
 
     # ---- dominance -----------------------------------------------------------
     def dominates(self, a, b):
@@ -141,6 +142,61 @@ class PathAI:
             r = self.dominates(v, u)
             self._dom_cache[k] = r
         return r
+
+    # ---- loops: memory written inside a loop is unknown at its head -----------------------
+    def loop_written(self):
+        """{header block: (set of alloca ids stored to / passed to calls inside the loop, other?)}"""
+        if self._loopw is not None:
+            return self._loopw
+        fn = self.fn
+        blocks = fn.blocks
+        res = {}
+        for h, blk in enumerate(blocks):
+            if not blk["loophdr"]:
+                continue
+            body = {h}
+            work = [u for u in blk["preds"] if self.dominates(h, u)]
+            while work:
+                u = work.pop()
+                if u in body:
+                    continue
+                body.add(u)
+                work.extend(blocks[u]["preds"])
+            allocas, other = set(), False
+            for b in body:
+                for iid in blocks[b]["insts"]:
+                    ins = fn.insts[iid]
+                    if ins["op"] == "store":
+                        r = self._static_root(ins["ops"][1])
+                        if r is None:
+                            other = True
+                        else:
+                            allocas.add(r)
+                    elif ins["op"] == "call":
+                        c = ins["callee"]
+                        if c[0] == "g" and (c[1].startswith("llvm.dbg") or c[1].startswith("llvm.lifetime")):
+                            continue
+                        for o in ins["ops"]:
+                            r = self._static_root(o)
+                            if r is not None:
+                                allocas.add(r)
+                        other = True
+            res[h] = (allocas, other)
+        self._loopw = res
+        return res
+
+    def _static_root(self, o, depth=0):
+        """alloca instruction id an operand is derived from (syntactically), else None"""
+        while o[0] == "v" and depth < 32:
+            d = self.fn.insts[o[1]]
+            if d["op"] == "alloca":
+                return o[1]
+            if d["op"] in ("getelementptr", "bitcast"):
+                o = d["ops"][0]
+                depth += 1
+                continue
+            return None
+        return None
 
     # ---- operand evaluation -----------------------------------------------------
     def val(self, o, env):
@@ -227,6 +283,11 @@ class PathAI:
                     newvals[iid] = t
                 occ[iid] = oc + 1
             env.update(newvals)
+            if blk["loophdr"]:
+                be = Ev("loophead", ids[0] if ids else 0, 0)
+                be.args = self.loop_written()[b]
+                be.idx = len(events)
+                events.append(be)
             ended = False
             for iid in ids[n:]:
                 ins = insts[iid]
@@ -463,6 +524,14 @@ class PathAI:
                 elif e.kind == "call":
                     if self._may_write(e, r, escaped):
                         break
+                elif e.kind == "loophead":
+                    allocas, other = e.args
+                    if r[0] == "alloca":
+                        if r[1] in allocas or (other and r in escaped):
+                            break
+                    elif other or allocas:
+                        if r[0] != "g" or other:
+                            break
         if res is None:
             res = ("load", iid, oc)
         if self.record_loads:
